@@ -26,7 +26,12 @@ RULE = ("case = (model/option, execution mode, deformation class, seed) -> one r
         "rotation Q (70% Haar, 30% in-plane). Clauses per point: W(QF)=W(F), W(FQ)=W(F) (state rotated A->Q^T A Q), P F^T symmetric; "
         "per model/option: W(0)=0, P(0)=0 at the virgin state. 'history' cases take the state from a random loading history driven "
         "through the library's compute_state_new. Non-trivial = at least one point with strain >= 1e-3 and Q != I, or a reference-state "
-        "case of a distinct constant set; distinct = canonical hash of the case parameters.")
+        "case of a distinct constant set; distinct = canonical hash of the case parameters. Unit systems: 30 % of the batches move every stress-like "
+        "constant by 10^k (k in -12..12), and 'scale_sweep' cases evaluate one dimensionless material and one set of 32 points at modulus "
+        "2^k / 10^k over 1e-12..1e12 (per-band minimum counts). 'aliased_options' cases build all models of a family from ONE mutable options "
+        "dict (turned key by key into the next configuration between creations), scribble over it after the last creation (option keys cycled, "
+        "numbers x3.7, NaN, cleared) and only then trace each model (single call, batch of 8, batch of 11 -> retraces): each must equal the model "
+        "built from a fresh dict literal and satisfy the rest-state / objectivity / isotropy clauses.")
 ASSUMPTIONS = [
     "the identities are compared up to a rounding bound: 1e-11*(|W|+mu|E|^2) + 16*eps*(mu+kappa)*|E| (the rotated input QF-I is itself "
     "only known to eps) + 64*eps*(mu+kappa) for models whose formula subtracts O(1) quantities (I1bar-3, J^2/2-1/2-log J: neo-Hookean, "
@@ -38,6 +43,9 @@ ASSUMPTIONS = [
     "(the phase potential 3Gc/8*phase/l is not a strain energy); objectivity is checked on the total energy with gradPhase rotated as a "
     "material vector",
     "numpy float64 rotations are orthogonal to ~1e-16",
+    "aliasing class: 'the model with option o and constants c' means the model configured at creation time, so it is compared with a model "
+    "built from a fresh dict literal (clause aliased:model_as_configured); numeric constants are passed as python floats (immutable) -- "
+    "in-place mutation of caller-owned numpy arrays after creation is not treated as admissible use",
 ]
 REQUIRED = {
     "all": {
@@ -49,8 +57,17 @@ REQUIRED = {
         "d8_class_points": 500, "batched_pair_class_noneigen_points": 500,
         "j2_points_yielding": 200, "j2_points_elastic": 200,
         "configs_reference_checked": 2 * len(Z.NAMES), "concrete_constant_replicas": len(Z.NAMES),
+        # round 2: absolute unit systems and caller-side aliasing of the options dictionary
+        "scale_sweep_batches": 400, "batches_with_random_unit_system": 50,
+        "aliased_models_evaluated:LinearElastic": 9, "aliased_models_evaluated:Neohookean": 6, "aliased_models_evaluated:Gent": 3,
+        "aliased_models_evaluated:J2Plastic": 36, "aliased_models_evaluated:HyperViscoelastic": 3,
+        "aliased_models_evaluated:MultiBranchHyperViscoelastic": 3, "aliased_models_evaluated:PhaseFieldThreshold": 6,
+        "aliased_retraces_after_mutation": 44, "aliased_as_configured_evals": 500, "class:aliased_options": 9,
     },
 }
+for _b in Z.SCALE_BANDS:
+    REQUIRED["all"]["band:%s:objectivity_evals" % _b] = 500
+    REQUIRED["all"]["band:%s:ref_evals" % _b] = 20
 for _c in Z.STRETCH_CLASSES + ["reference", "history"]:
     for _m in ("single", "batched"):
         REQUIRED["all"]["class:%s/%s" % (_c, _m)] = 10
@@ -82,10 +99,21 @@ def build_cases(tier, seed):
                     cases.append({"cls": "%s/%s" % (cls, mode), "cfg": name, "mode": mode, "group": group, "nb": nb,
                                   "cost": nb * (1.0 if mode == "batched" else 4.0),
                                   "seed": derive_seed(seed, PROPERTY, cls, name, mode, i)})
+            # the same dimensionless material and the same 32 points in 14 unit systems (modulus 2^k / 10^k over 1e-12 .. 1e12)
+            for i in range(1 if quick else 20):
+                cases.append({"cls": "scale_sweep/" + mode, "cfg": name, "mode": mode, "group": group, "scales": Z.SWEEP_SCALES,
+                              "sweep_class": ["distinct", "simple_shear", "two_equal"][i % 3] if mode == "single" else ["distinct", "simple_shear"][i % 2],
+                              "cost": 14.0 * (1.0 if mode == "batched" else 4.0),
+                              "seed": derive_seed(seed, PROPERTY, "scale_sweep", name, mode, i)})
             if name in STATEFUL_FINITE:
                 for i in range(n_hist):
                     cases.append({"cls": "history/" + mode, "cfg": name, "mode": mode, "group": group, "cost": 15.0,
                                   "seed": derive_seed(seed, PROPERTY, "history", name, mode, i)})
+    # one mutable options dictionary shared by all models of a family and scribbled over before first use
+    for grp in Z.ALIAS_GROUPS:
+        for i in range(1 if quick else 3):
+            cases.append({"cls": "aliased_options", "cfg": grp, "group": "alias:" + grp, "cost": 40.0 * (3.0 if grp.startswith("j2") or grp == "visco3" else 1.0),
+                          "seed": derive_seed(seed, PROPERTY, "aliased_options", grp, i)})
     only = os.environ.get("VERIF_ONLY_CFG")  # debugging / mutation runs only (use together with --only so that no evidence is written)
     if only:
         cases = [c for c in cases if only in c["cfg"]]
@@ -235,6 +263,9 @@ def _run_reference(res, case, rng):
     pf = Z.CONFIGS[name]["family"] == "PhaseFieldThreshold"
     for k in range(case["nsets"]):
         cvec = Z.sample_consts(name, rng)
+        if k % 2 == 1:  # every second constant set lives in one of the sweep's unit systems
+            cvec = Z.scale_consts(name, Z.normalize_consts(name, cvec), Z.SWEEP_SCALES[int(rng.integers(len(Z.SWEEP_SCALES)))])
+        band = Z.scale_band(name, cvec)
         mu, kappa = Z.moduli(name, cvec)
         dt = Z.sample_dt(name, cvec, rng)
         if mode == "single":
@@ -262,6 +293,7 @@ def _run_reference(res, case, rng):
                 res.bound("reference_energy", abs(w[j]), 1e-14 * mu, det)
                 res.bound("reference_stress", float(onp.abs(p[j]).max()), 1e-12 * mu, det)
                 res.count("ref_evals:" + mode)
+                res.count("band:%s:ref_evals" % band)
     res.count("configs_reference_checked")
     res.nontrivial = True
     # concrete-constant replica (python floats in the property dictionary, as a user would build the model)
@@ -297,17 +329,33 @@ def _j2_regime_counts(res, name, cvec, logs_list):
 
 
 def _run_class(res, case, rng):
-    for _ in range(case.get("nb", 1)):  # every batch of 32 points has its own constant set
+    for _ in range(case.get("nb", 1)):  # every batch of 32 points has its own constant set (and, 30 %, its own unit system)
         _run_class_batch(res, case, rng)
 
 
-def _run_class_batch(res, case, rng):
+def _run_scale_sweep(res, case, rng):
+    """Same dimensionless material (leading modulus normalised to 1), same points, every stress-like constant multiplied by s."""
+    for s in case["scales"]:
+        _run_class_batch(res, case, rng_of(case["seed"]), scale=float(s), cls=case["sweep_class"])
+        res.count("scale_sweep_batches")
+
+
+def _run_class_batch(res, case, rng, scale=None, cls=None):
     name, mode = case["cfg"], case["mode"]
-    cls = case["cls"].split("/")[0]
+    cls = cls or case["cls"].split("/")[0]
     ys = None
     if Z.is_j2(name):
         ys = [None, 10.0][int(rng.integers(2))]  # half of the cases purely elastic (yield strain 10), half with realistic yield strains
     cvec = Z.sample_consts(name, rng, yield_strain=ys)
+    if scale is None:
+        sc = Z.random_case_scale(rng)
+        if sc != 1.0:
+            cvec = Z.scale_consts(name, cvec, sc)
+            res.count("batches_with_random_unit_system")
+    else:
+        cvec = Z.scale_consts(name, Z.normalize_consts(name, cvec), scale)
+    band = Z.scale_band(name, cvec)
+    res.count("band:%s:objectivity_evals" % band, B)
     dt = Z.sample_dt(name, cvec, rng)
     smax = 0.45 if name == "gent" else 1.0
     pts = [Z.stretch_point(cls, rng, 1e-3, smax) for _ in range(B)]
@@ -383,6 +431,91 @@ def _run_history(res, case, rng):
     res.nontrivial = True
 
 
+def _run_alias(res, case, rng):
+    """Caller-side aliasing: all models of a family are created from ONE mutable options dict that is turned, key by key, into the
+    next configuration between creations; after the last creation the dict is scribbled over (every option key moved along its value
+    cycle, numbers x3.7, then NaN, finally cleared) and only then is each model traced: a single compiled call, then a batch of 8 and a
+    batch of 11 (new call signatures force a retrace after each further mutation).  Every model must be the model it was configured as
+    at creation time: equal to a model built from a fresh dict literal, with W(0)=0, objective and isotropic (finite-deformation options)."""
+    import contextlib
+    import io
+    import jax
+    import jax.numpy as np
+    grp = case["cfg"]
+    names = list(Z.ALIAS_GROUPS[grp])
+    order = [names[int(i)] for i in rng.permutation(len(names))]
+    family = Z.CONFIGS[order[0]]["family"]
+    pf = family == "PhaseFieldThreshold"
+    factory = Z.factory_for(family)
+    npt = 4
+    pts = [Z.stretch_point("distinct", rng, 1e-2, 0.3) for _ in range(npt)]
+    F = [p["F"] for p in pts]
+    Q = [Z.random_rotation(rng)[0] for _ in range(npt)]
+    I = onp.eye(3)
+    # 11 displacement gradients: rest, F_i, Q_i F_i, F_0 Q_0, F_1 Q_1
+    Hs = [onp.zeros((3, 3))] + [f - I for f in F] + [q @ f - I for q, f in zip(Q, F)] + [F[0] @ Q[0] - I, F[1] @ Q[1] - I]
+    Hs = onp.array(Hs)
+    e2 = [0.0] + [float((p["logs"] ** 2).sum()) for p in pts] * 2 + [float((pts[0]["logs"] ** 2).sum()), float((pts[1]["logs"] ** 2).sum())]
+    base_of = [None, None, None, None, None, 1, 2, 3, 4, 1, 2]       # index of the un-rotated partner
+    clause_of = [None] * 5 + ["objectivity_QF"] * 4 + ["isotropy_FQ"] * 2
+
+    d = {}  # the one caller-owned dictionary
+    models = []
+    for name in order:
+        cvec = Z.sample_consts(name, rng, yield_strain=[None, 10.0][int(rng.integers(2))] if Z.is_j2(name) else None)
+        sc = Z.random_case_scale(rng)
+        cvec = _gent_fix(name, Z.scale_consts(name, cvec, sc), F)
+        Z.mutate_dict_to(d, Z.properties_dict(name, [float(x) for x in cvec]))
+        with contextlib.redirect_stdout(io.StringIO()):
+            m = factory(d)
+        models.append((name, cvec, m, Z.sample_dt(name, cvec, rng)))
+    st_of = {name: np.asarray(Z.initial_state(name)) for name in order}
+
+    def energy(m):
+        if pf:
+            return lambda H, st, dt: m.compute_energy_density(H, 0.0, np.zeros(3), st, dt)
+        return lambda H, st, dt: m.compute_energy_density(H, st, dt)
+
+    # expectation: models built from fresh dict literals, single compiled calls
+    fresh = {}
+    for name, cvec, m, dt in models:
+        fw = jax.jit(energy(Z.build_model(name, [float(x) for x in cvec])))
+        fresh[name] = onp.array([float(fw(np.asarray(h), st_of[name], dt)) for h in Hs])
+
+    def judge(stage, name, cvec, w):
+        mu, kappa = Z.moduli(name, cvec)
+        finite = Z.CONFIGS[name]["finite"]
+        det = {"cfg": name, "stage": stage, "cvec": list(cvec), "dict_now": {k: (v if isinstance(v, str) else repr(v)) for k, v in d.items()}}
+        res.bound("aliased:reference_energy", abs(w[0]), 1e-14 * mu, dict(det, W0=w[0]))
+        for j in range(len(w)):
+            allowed = _allowed_energy(name, mu, kappa, fresh[name][j] if onp.isfinite(fresh[name][j]) else 0.0, e2[j]) + 1e-14 * mu
+            res.bound("aliased:model_as_configured", abs(w[j] - fresh[name][j]), allowed, dict(det, entry=j, W=w[j], W_fresh_dict=fresh[name][j]))
+            res.count("aliased_as_configured_evals")
+            if finite and clause_of[j] is not None:
+                res.bound("aliased:" + clause_of[j], abs(w[j] - w[base_of[j]]), allowed, dict(det, entry=j, W=w[j], W_partner=w[base_of[j]]))
+        res.count("aliased_models_evaluated:" + family)
+
+    stages = [("single_call_after_scribble_1", None, lambda: Z.scribble_options(d, family, 1, lambda v: v * 3.7)),
+              ("batch8_retrace_after_scribble_2", 8, lambda: Z.scribble_options(d, family, 1, lambda v: float("nan"))),
+              ("batch11_retrace_after_clear", 11, d.clear)]
+    for stage, nbatch, mutate in stages:
+        mutate()
+        for name, cvec, m, dt in models:
+            try:
+                if nbatch is None:
+                    fw = jax.jit(energy(m))
+                    w = onp.array([float(fw(np.asarray(h), st_of[name], dt)) for h in Hs])
+                else:
+                    fw = jax.jit(jax.vmap(energy(m), (0, None, None)))
+                    w = onp.asarray(fw(np.asarray(Hs[:nbatch]), st_of[name], dt))
+                    res.count("aliased_retraces_after_mutation")
+            except Exception as exc:  # a model that can no longer be traced once the caller's dict changed is not the model that was configured
+                res.violate("aliased:model_usable_after_options_mutation", {"cfg": name, "stage": stage, "error": "%s: %s" % (type(exc).__name__, str(exc)[:300])})
+                continue
+            judge(stage, name, cvec, w)
+    res.nontrivial = True
+
+
 def run_case(case):
     res = Res(case)
     rng = rng_of(case["seed"])
@@ -391,6 +524,10 @@ def run_case(case):
         _run_reference(res, case, rng)
     elif kind == "history":
         _run_history(res, case, rng)
+    elif kind == "scale_sweep":
+        _run_scale_sweep(res, case, rng)
+    elif kind == "aliased_options":
+        _run_alias(res, case, rng)
     else:
         _run_class(res, case, rng)
     return res
